@@ -18,8 +18,13 @@ from . import lin, paths
 SKIP_CALLS = {"memcpy", "memmove", "err_msg", "__assert_fail", "s3_rand_int31", "genrand_int31"}
 
 
+def _noloc(x):
+    """drop __FILE__/__LINE__ arguments of the allocation wrappers"""
+    return re.sub(r', "/[^"]*", \d+\)', ")", x)
+
+
 def P(fn, i, subst=True):
-    return lin.p_str(lin.poly(fn, i, subst=subst))
+    return _noloc(lin.p_str(lin.poly(fn, i, subst=subst)))
 
 
 def elem_size(fn, ptr_node):
@@ -89,7 +94,10 @@ def summary(fn, root=None, selector=None):
         elif cal and cal not in SKIP_CALLS and c not in loop_nodes:
             if any(m in ("SWAP_INT16", "SWAP_FLOAT32", "E_ERROR", "E_INFO", "E_WARN", "assert") for m in fn.mac(c)):
                 continue
-            out.add(("CALL", cal) + tuple(P(fn, a) for a in fn.args(c)))
+            args = fn.args(c)
+            if cal.startswith(("__ckd_", "__listelem_")):
+                args = args[:-2]
+            out.add(("CALL", cal) + tuple(P(fn, a) for a in args))
     for s in paths.stores(fn, root):
         if s["node"] in loop_nodes:
             continue
